@@ -35,6 +35,9 @@ func VerifNewSender(max int, ttl time.Duration, now func() time.Time, fn func(co
 	return &VerifSender{s}
 }
 
+// VerifSetOnChange installs the change notification callback (the application logs / redraws its display there)
+func (v *VerifSender) VerifSetOnChange(f func()) { v.S.onChange = f }
+
 func (v *VerifSender) Joined(p string) { v.S.handlePeerJoined(p) }
 func (v *VerifSender) Accept(ctx context.Context, p string) {
 	v.S.handleManifestAccept(p, protocol.ManifestAccept{})
